@@ -126,6 +126,8 @@ class Adapter(EnvAdapter):
                 c("un10a10_t3", "uniform", 10, 10, 3, 3, 7, probe_cap=64),
                 # many resets of a crowded board (C10: agents boxed in at their start cell)
                 c("rw3a3_t7", "random_walk", 3, 3, 7, 72, 2, probe_cap=10),
+                # more than 42 agents: the grid codes 1 + 3i, 2 + 3i, 3 + 3i pass 127 (and, in the thorough tier, 255)
+                c("un14a44_t5", "uniform", 14, 44, 5, 2, 8, probe_cap=8, probe_every=2, policies=["greedy", "masked", "stall"]),
                 # DenseRewardFn with non-default parameters (also given as Python ints)
                 dict(c("rw4a3_t7_rw", "random_walk", 4, 3, 7, 6, 12, probe_cap=36), ctor=dict(generator="random_walk", grid_size=4,
                      num_agents=3, time_limit=7, reward=(2.5, -0.25))),
@@ -154,6 +156,8 @@ class Adapter(EnvAdapter):
         out.append(c("rw5a1_t7", "random_walk", 5, 1, 7, 12, 11))
         out.append(c("un5a1_t7", "uniform", 5, 1, 7, 12, 11))
         out.append(c("rw12a12_t7", "random_walk", 12, 12, 7, 4, 11, probe_cap=72, probe_every=2))
+        out.append(c("un14a44_t5", "uniform", 14, 44, 5, 4, 8, probe_cap=12, probe_every=2, policies=["greedy", "masked", "stall"]))
+        out.append(c("un20a90_t5", "uniform", 20, 90, 5, 2, 8, probe_cap=8, probe_every=3, policies=["greedy", "masked"]))
         out.append(dict(c("rw4a3_t7_rw", "random_walk", 4, 3, 7, 18, 12, probe_cap=36), ctor=dict(generator="random_walk", grid_size=4,
                         num_agents=3, time_limit=7, reward=(2.5, -0.25))))
         out.append(dict(c("un4a2_t7_rwint", "uniform", 4, 2, 7, 18, 12, probe_cap=25), ctor=dict(generator="uniform", grid_size=4,
